@@ -1,12 +1,16 @@
 /-
-  Lemmas/TieParseAux.lean — the two loops of the generated `Gen.from_operations`
-  (Generated/FnsParse.lean) named (`genStep`, `genRow`: verbatim copies of the generated lambdas,
-  connected to the generated term by `rfl`), and the inner loop identified with the model's
+  Lemmas/TieParseAux.lean — the two loop bodies of the generated `Gen.from_operations`
+  (Generated/FnsParse.lean: `Gen.from_operations_loop1`, the per-character step, and
+  `Gen.from_operations_loop2`, the per-row step) identified with the model's `stepChar` /
   `runChars` / `parseRow` (Model/Parser.lean).  Used by Proofs/TieParse.lean.
+
+  The per-character lemma is proved SEMANTICALLY: a case split on the character (x, y, *, /, -,
+  blank, +, digit, anything else) and, in every class, normalisation of both sides — so it does not
+  depend on the order of the arms of the generated `if` chain, on the names of the locals or on how
+  the tests are grouped; it fails when the function computed by the loop body changes.
 -/
 import Generated.FnsParse
 import Model.Parser
-set_option linter.unusedVariables false
 
 namespace PV.Proofs.TieParse
 open PV
@@ -40,118 +44,98 @@ theorem emb_set1 {α : Type} (i : Nat) (hi : i = 0 ∨ i = 1) (T : Mat3 α) (cx 
     (emb i T cx cy).setEntry i 1 v = emb i T cx v := by
   rcases hi with rfl | rfl <;> rfl
 
+/-- the generated state that corresponds to a model state -/
+def toG {α : Type} (i : Nat) (T : Mat3 α) (s : PState α) : GState α :=
+  (s.const, s.op, s.sign, emb i T s.cx s.cy)
+
+/-- lift of `toG` to results -/
+def toGE {α : Type} (i : Nat) (T : Mat3 α) : Except ParseErr (PState α) → Except ParseErr (GState α)
+  | .ok s' => .ok (toG i T s')
+  | .error e => .error e
+
 section
 variable {α : Type} [Mul α] [Div α] [Neg α] [NatCast α]
 
-/-! ### the generated loops, named
+/-! ### the model step keeps the operator invariant (no generated code involved) -/
 
-`genStep` / `genRow` are verbatim copies of the two lambdas of `Gen.from_operations`; they are
-connected to the generated term by `rfl` in `from_operations_eq`. -/
-
-/-- the body of the inner (per character) loop of the generated code, for the row `index` -/
-def genStep (index : Nat) : GState α → Char → Except ParseErr (GState α) :=
-  (fun (constant, operator, sign, transform) c => (if (c = 'x') then (let transform := (Mat3.setEntry transform index 0 sign); (let sign := ((1 : Nat) : α); (Except.ok (constant, operator, sign, transform)))) else (if (c = 'y') then (let transform := (Mat3.setEntry transform index 1 sign); (let sign := ((1 : Nat) : α); (Except.ok (constant, operator, sign, transform)))) else (if (c = '*') then (let operator := (some c); (Except.ok (constant, operator, sign, transform))) else (if (c = '/') then (let operator := (some c); (Except.ok (constant, operator, sign, transform))) else (if (c = '-') then (let sign := (-((1 : Nat) : α)); (Except.ok (constant, operator, sign, transform))) else (if ('0' ≤ c ∧ c ≤ '9') then (let val := (((digitVal c) : Nat) : α); (let constant := (match operator with | none => (sign * val) | (some m1_1) => (let op := m1_1; if ((op == '/') = true) then ((sign * constant) / val) else (let op := m1_1; if ((op == '*') = true) then ((sign * constant) / val) else ((0 : Nat) : α)))); (let operator := none; (let sign := ((1 : Nat) : α); (Except.ok (constant, operator, sign, transform)))))) else (if (c = ' ') then (Except.ok (constant, operator, sign, transform)) else (if (c = '+') then (Except.ok (constant, operator, sign, transform)) else (Except.error (ParseErr.invalid c)))))))))))
-
-/-- the body of the outer (per row) loop of the generated code -/
-def genRow : Mat3 α → Nat × List Char → Except ParseErr (Mat3 α) :=
-  (fun transform (index, op) => (let sign := ((1 : Nat) : α); (let constant := ((0 : Nat) : α); (let operator := (none : Option Char); (match (List.foldlM (genStep index) (constant, operator, sign, transform) op) with | Except.error imp_e => Except.error imp_e | Except.ok (constant, operator, sign, transform) => (let transform := (Mat3.setEntry transform index 2 constant); (Except.ok transform)))))))
-
-theorem from_operations_eq (s : List Char) :
-    Gen.from_operations (α := α) s =
-      (let operations := splitTerminator (trimMatches ['(', ')'] s)
-       match (if operations.length < 2 then Except.error ParseErr.tooFew
-              else if 2 < operations.length then Except.error ParseErr.tooMany
-              else Except.ok ()) with
-       | Except.error e => Except.error e
-       | Except.ok _ =>
-         match List.foldlM genRow (Mat3.zeros : Mat3 α)
-                 (operations.zipIdx.map fun zp => (zp.2, zp.1)) with
-         | Except.error e => Except.error e
-         | Except.ok t => Except.ok t) := rfl
-
-/-! ### inner loop = `runChars` -/
-
-/-- the generated state that corresponds to a model state -/
-def toG (i : Nat) (T : Mat3 α) (s : PState α) : GState α := (s.const, s.op, s.sign, emb i T s.cx s.cy)
-
-/-- one character: the generated step is the model step (and the operator invariant is kept) -/
-theorem genStep_eq (i : Nat) (hi : i = 0 ∨ i = 1) (T : Mat3 α) (s : PState α) (ho : OkOp s.op)
-    (c : Char) :
-    genStep i (toG i T s) c =
-        (match stepChar s c with
-         | .ok s' => .ok (toG i T s')
-         | .error e => .error e) ∧
-      ∀ s', stepChar s c = .ok s' → OkOp s'.op := by
+theorem stepChar_okOp (s s' : PState α) (ho : OkOp s.op) (c : Char)
+    (h : stepChar s c = .ok s') : OkOp s'.op := by
   obtain ⟨sg, k, o, cx, cy⟩ := s
-  simp only [genStep, toG, stepChar, beq_iff_eq, Bool.or_eq_true]
+  simp only [stepChar] at h
+  repeat' split at h
+  all_goals first
+    | (cases h; exact ho)
+    | (cases h; exact Or.inl rfl)
+    | (cases h
+       rename_i hc
+       simp only [Bool.or_eq_true, beq_iff_eq] at hc
+       rcases hc with rfl | rfl
+       · exact Or.inr (Or.inl rfl)
+       · exact Or.inr (Or.inr rfl))
+    | cases h
+
+/-! ### one character: generated step = model step, by cases on the character -/
+
+/-- closes one character class: both sides are normalised with the facts about `c` in context -/
+local macro "char_class" : tactic =>
+  `(tactic| (simp (config := { decide := true })
+      [Gen.from_operations_loop1, stepChar, toG, toGE, emb_set0, emb_set1, *]))
+
+theorem loop1_eq (i : Nat) (hi : i = 0 ∨ i = 1) (op : List Char) (T : Mat3 α) (s : PState α)
+    (ho : OkOp s.op) (c : Char) :
+    Gen.from_operations_loop1 i op (toG i T s) c = toGE i T (stepChar s c) := by
+  obtain ⟨sg, k, o, cx, cy⟩ := s
+  have e0 := emb_set0 (α := α) i hi
+  have e1 := emb_set1 (α := α) i hi
+  clear hi
   by_cases hx : c = 'x'
-  · simp only [hx, if_true, emb_set0 (α := α) i hi]
-    exact ⟨by first | trivial | rfl, fun s' h => by cases h; exact ho⟩
+  · subst hx; char_class
   by_cases hy : c = 'y'
-  · subst hy
-    simp only [if_neg (show ¬ 'y' = 'x' by decide), if_true, emb_set1 (α := α) i hi]
-    exact ⟨by first | trivial | rfl, fun s' h => by cases h; exact ho⟩
+  · subst hy; char_class
   by_cases hm : c = '*'
-  · subst hm
-    simp only [if_neg (show ¬ '*' = 'x' by decide), if_neg (show ¬ '*' = 'y' by decide), if_true,
-      true_or]
-    exact ⟨by first | trivial | rfl, fun s' h => by cases h; exact Or.inr (Or.inl rfl)⟩
+  · subst hm; char_class
   by_cases hd : c = '/'
-  · subst hd
-    simp only [if_neg (show ¬ '/' = 'x' by decide), if_neg (show ¬ '/' = 'y' by decide),
-      if_neg (show ¬ '/' = '*' by decide), if_true, or_true]
-    exact ⟨by first | trivial | rfl, fun s' h => by cases h; exact Or.inr (Or.inr rfl)⟩
-  simp only [if_neg hx, if_neg hy, if_neg hm, if_neg hd, if_neg (show ¬ (c = '*' ∨ c = '/') from
-    fun h => h.elim hm hd)]
+  · subst hd; char_class
   by_cases hn : c = '-'
-  · simp only [hn, if_true]
-    exact ⟨by first | trivial | rfl, fun s' h => by cases h; exact ho⟩
-  simp only [if_neg hn]
-  by_cases hdig : '0' ≤ c ∧ c ≤ '9'
-  · simp only [if_pos hdig]
-    refine ⟨?_, fun s' h => by cases h; exact Or.inl rfl⟩
-    rcases ho with ho | ho | ho <;> simp only at ho <;> subst ho <;> rfl
-  simp only [if_neg hdig]
+  · subst hn; char_class
   by_cases hsp : c = ' '
-  · simp only [hsp, if_true, true_or]
-    exact ⟨by first | trivial | rfl, fun s' h => by cases h; exact ho⟩
+  · subst hsp; char_class
   by_cases hpl : c = '+'
-  · subst hpl
-    simp only [if_neg (show ¬ '+' = ' ' by decide), if_true, or_true]
-    exact ⟨by first | trivial | rfl, fun s' h => by cases h; exact ho⟩
-  simp only [if_neg hsp, if_neg hpl, if_neg (show ¬ (c = ' ' ∨ c = '+') from
-    fun h => h.elim hsp hpl)]
-  exact ⟨by first | trivial | rfl, fun s' h => by cases h⟩
+  · subst hpl; char_class
+  by_cases hdig : '0' ≤ c ∧ c ≤ '9'
+  · -- a digit: the three admissible operators
+    obtain ⟨h0, h9⟩ := hdig
+    rcases ho with ho | ho | ho <;> simp only at ho <;> subst ho <;> char_class
+  · -- anything else is rejected by both
+    have hdig' : ('0' ≤ c ∧ c ≤ '9') = False := eq_false hdig
+    clear hdig
+    char_class
 
 /-- the whole inner loop is `runChars` -/
-theorem foldlM_genStep (i : Nat) (hi : i = 0 ∨ i = 1) (T : Mat3 α) :
+theorem foldlM_loop1 (i : Nat) (hi : i = 0 ∨ i = 1) (op : List Char) (T : Mat3 α) :
     ∀ (cs : List Char) (s : PState α), OkOp s.op →
-      List.foldlM (genStep i) (toG i T s) cs =
-        (match runChars s cs with
-         | .ok s' => .ok (toG i T s')
-         | .error e => .error e)
+      List.foldlM (Gen.from_operations_loop1 i op) (toG i T s) cs = toGE i T (runChars s cs)
   | [], s, _ => rfl
   | c :: cs, s, ho => by
-    obtain ⟨h1, h2⟩ := genStep_eq i hi T s ho c
-    rw [List.foldlM_cons, h1, runChars]
+    rw [List.foldlM_cons, loop1_eq i hi op T s ho c, runChars]
     cases hs : stepChar s c with
     | error e => rfl
     | ok s' =>
-      show List.foldlM (genStep i) (toG i T s') cs = _
-      exact foldlM_genStep i hi T cs s' (h2 s' hs)
+      show List.foldlM (Gen.from_operations_loop1 i op) (toG i T s') cs = _
+      exact foldlM_loop1 i hi op T cs s' (stepChar_okOp s s' ho c hs)
 
 /-- one row of the outer loop, when row `i` of the incoming matrix still holds zeros -/
-theorem genRow_eq (i : Nat) (hi : i = 0 ∨ i = 1) (T : Mat3 α)
+theorem loop2_eq (i : Nat) (hi : i = 0 ∨ i = 1) (T : Mat3 α)
     (hT : emb i T ((0 : Nat) : α) ((0 : Nat) : α) = T) (op : List Char) :
-    genRow T (i, op) =
+    Gen.from_operations_loop2 T (i, op) =
       (match parseRow (α := α) op with
        | .ok (a, b, k) => .ok ((emb i T a b).setEntry i 2 k)
        | .error e => .error e) := by
-  have h := foldlM_genStep i hi T op (PState.init (α := α)) (Or.inl rfl)
+  have h := foldlM_loop1 i hi op T op (PState.init (α := α)) (Or.inl rfl)
   have h0 : toG i T (PState.init (α := α)) = (((0 : Nat) : α), none, ((1 : Nat) : α), T) := by
     simp only [toG, PState.init, hT]
   rw [h0] at h
-  simp only [genRow, parseRow, h]
+  simp only [Gen.from_operations_loop2, parseRow, h]
   cases runChars (PState.init (α := α)) op with
   | error e => rfl
   | ok s' => rfl
